@@ -75,7 +75,7 @@ class ParseAPI(object):
         Return a :class:`BIP32 <pycoin.key.BIP32Node.BIP32Node>` or None.
         """
         pair = parse_colon_prefix(s)
-        if pair is None or pair[0] not in "HP":
+        if pair is None or pair[0] not in ("H", "P"):
             return None
         if pair[0] == "H":
             try:
@@ -83,7 +83,10 @@ class ParseAPI(object):
             except ValueError:
                 return None
         else:
-            master_secret = pair[1].encode("utf8")  # type: ignore[assignment]
+            try:
+                master_secret = pair[1].encode("utf8")  # type: ignore[assignment]
+            except UnicodeEncodeError:
+                return None
         return self._network.keys.bip32_seed(master_secret)
 
     def hd_seed(self, s: str) -> Any:
